@@ -28,7 +28,8 @@ OUTSIDE = "more customers/vehicles/jobs than the bound; full solve_vrptw runs (c
 ASSUMPTIONS = [
     "VRP invariant INV: every customer is in `unassigned` XOR on at least one route; no duplicate inside a route; a single-vehicle customer is on at "
     "most one route; a k-vehicle customer on at most k routes; arrival_times[v] == compute_arrival_times(v)",
-    "inductive argument: INV(pre) -> INV(post) for each operator and INV holds for VRPState.from_problem (all unassigned)",
+    "inductive argument: INV(pre) -> INV(post) for each operator and INV holds for VRPState.from_problem (all unassigned); sync_assignments is "
+    "not part of INV, so pre-states also carry an arbitrary (stale) sync_assignments entry for the multi-vehicle customer",
     "Random replaced by a symbolic stream; float() shadowed in solvor.job_shop",
 ]
 STUBS = ["solvor.job_shop.Random := SymRandom", "solvor.job_shop.float := symbolic float", "operators receive a SymRandom instance as rng"]
@@ -89,7 +90,7 @@ def enumerate_states(n_cust, n_veh, multi):
             yield routes, unassigned
 
 
-def make_state(s, n_cust, n_veh, multi, routes, unassigned, triangle=False):
+def make_state(s, n_cust, n_veh, multi, routes, unassigned, triangle=False, sync=None):
     vrp = importlib.import_module("solvor.vrp")
     N = n_cust + 1
     D = [[0.0] * N for _ in range(N)]
@@ -106,7 +107,7 @@ def make_state(s, n_cust, n_veh, multi, routes, unassigned, triangle=False):
         customers.append(vrp.Customer(c, 0.0, 0.0, s.real("demand%d" % c, 0, None), tw0, tw1, s.real("service%d" % c, 0, None), multi.get(c, 1)))
     vehicles = [vrp.Vehicle(v, s.real("capacity%d" % v, 0, None)) for v in range(n_veh)]
     st = vrp.VRPState(customers=customers, vehicles=vehicles, routes=[list(r) for r in routes], arrival_times=[[] for _ in range(n_veh)],
-                      unassigned=set(unassigned), sync_assignments={}, _dist=D)
+                      unassigned=set(unassigned), sync_assignments={int(k): set(v) for k, v in (sync or {}).items()}, _dist=D)
     st.update_arrival_times()  # INV (d) by construction, through the real method
     return st
 
@@ -143,10 +144,11 @@ def snapshot(st):
     return ([list(r) for r in st.routes], [list(a) for a in st.arrival_times], set(st.unassigned), list(st.customers), list(st.vehicles))
 
 
-def h_vrp_op(s, op, n_cust, n_veh, multi, routes, unassigned):
+def h_vrp_op(s, op, n_cust, n_veh, multi, routes, unassigned, sync=None):
     vrp = importlib.import_module("solvor.vrp")
     multi = {int(k): v for k, v in multi.items()}
-    st = make_state(s, n_cust, n_veh, multi, routes, set(unassigned))
+    # sync_assignments is NOT constrained by the invariant (removal operators leave stale entries): arbitrary content in the pre-state
+    st = make_state(s, n_cust, n_veh, multi, routes, set(unassigned), sync=sync)
     before = snapshot(st)
     rng = SymRandom(s)
     fn = getattr(vrp, op)
@@ -253,6 +255,11 @@ def items(tier, rng):
                 continue
             out.append({"name": "vrp_" + op, "harness": "h_vrp_op", "max_paths": 120 if q else 3000,
                         "params": {"op": op, "n_cust": 3, "n_veh": 2, "multi": multi, "routes": routes, "unassigned": sorted(un)}})
+            if op in ("sync_aware_insertion", "sync_removal", "route_removal") or not q:
+                # stale / arbitrary sync_assignments entry for the multi-vehicle customer
+                out.append({"name": "vrp_stale_" + op, "harness": "h_vrp_op", "max_paths": 120 if q else 3000,
+                            "params": {"op": op, "n_cust": 3, "n_veh": 2, "multi": multi, "routes": routes, "unassigned": sorted(un),
+                                       "sync": {"1": [0, 1]}}})
         if si % (4 if q else 1) == 0:
             out.append({"name": "vrp_objective", "harness": "h_vrp_objective",
                         "params": {"n_cust": 3, "n_veh": 2, "multi": multi, "routes": routes, "unassigned": sorted(un)}})
